@@ -202,6 +202,22 @@ def csv_op(params, data, ctx=None):
     return f"csv {kind} {ty} {lp} {nout} {ord(sep)} {ord('#')} {maxb} {m} {hx(data)}"
 
 
+def gen_rt(r, ctx=None):
+    """exporter, then importer: every separator, label position, batch size"""
+    n = r.choice([0, 1, 2, 3, 5, 8, 13]); dim = r.choice([1, 2, 3, 6]); seed = r.below(40)
+    if r.chance(3, 5):
+        kind = r.choice(["c", "r"]); lp = r.choice(["F", "L"]); sep = r.choice([",", ";", " ", "\t", "|", ":"])
+        nout = r.choice([1, 2, 3]) if kind == "r" else 1
+        maxb = r.choice([1, 2, 3, 5, 256])
+        if ctx:
+            ctx.hist("rt_kind", f"csv-{kind}-{lp}"); ctx.hist("rt_separator", repr(sep)); ctx.hist("rt_batch", maxb); ctx.hist("rt_elements", n)
+        return f"rt csv {kind} {lp} {nout} {ord(sep)} {maxb} {dim} {seed} {n}"
+    lab = r.choice(["c", "r"]); bs = r.choice([0, 1, 2, 3, 5, 256])
+    if ctx:
+        ctx.hist("rt_kind", f"svm-{lab}"); ctx.hist("rt_batch", bs); ctx.hist("rt_elements", n)
+    return f"rt svm d {lab} {bs} {dim} {seed} {n}"
+
+
 # ------------------------------------------------------------------ corpus / classification
 def load_corpus():
     d = os.path.join(core.VERIF, "corpus", "C19")
@@ -216,6 +232,7 @@ def load_corpus():
 
 def decode(op):
     t = op.split()
+    if t[0] == "rt": return b""
     return bytes.fromhex(t[-1]) if t[-1] != "-" else b""
 
 
@@ -230,7 +247,10 @@ def svm_unsorted(data):
 def classify(ops, res):
     op = ops[-1]; t = op.split(); data = decode(op)
     what_in = f"{' '.join(t[:-1])} bytes={data[:80]!r}"
-    if t[0] == "svm":
+    if t[0] == "rt":
+        what_in = op
+        feat = "F2b-empty-input" if t[1] == "svm" and t[-1] == "0" else "roundtrip"
+    elif t[0] == "svm":
         if not data.strip(b"\n") and t[2] == "c":
             feat = "F2b-empty-input"
         elif svm_unsorted(data):
@@ -285,16 +305,20 @@ def run(ctx):
     for _ in range(nmut):
         prm = csv_params(r)
         cases.append([csv_op(prm, mutate(r, gen_csv_file(r, prm[0], prm[2], prm[3], prm[4]), ctx), ctx)])
+    nrt = 300 if ctx.quick else 5000
+    cases += [[gen_rt(r, ctx)] for _ in range(nrt)]
     ctx.cov["evaluations"] = len(cases)
-    ctx.cov["distinct_nontrivial"] = len({c[0] for c in cases if decode(c[0]).count(b"\n") >= 2})
+    ctx.cov["distinct_nontrivial"] = len({c[0] for c in cases if decode(c[0]).count(b"\n") >= 2 or (c[0].startswith("rt") and int(c[0].split()[-1]) >= 2)})
     ctx.sample({"op": cases[len(cases) // 2][0][:200]})
     env = {"ASAN_OPTIONS": "detect_leaks=0:abort_on_error=0:allocator_may_return_null=1:max_allocation_size_mb=512"}
-    core.correspond(ctx, "K-C19", cases, [exe], [drv], classify, env=env, keep_prefix=0, max_report=6)
+    tmp = os.path.join(core.CACHE, "tmp"); os.makedirs(tmp, exist_ok=True)
+    core.correspond(ctx, "K-C19", cases, [exe, tmp], [drv], classify, env=env, keep_prefix=0, max_report=6)
 
 
 def replay(ctx, rep):
     exe = build(ctx); drv = ctx.driver("drv_c19")
-    res = core.run_case(ctx, [exe], [drv], rep["ops"], env=rep.get("env"))
+    tmp = os.path.join(core.CACHE, "tmp"); os.makedirs(tmp, exist_ok=True)
+    res = core.run_case(ctx, [exe, tmp], [drv], rep["ops"], env=rep.get("env"))
     print("\n".join(f"impl : {a}\nmodel: {b}" for a, b in zip(res.impl, res.model)))
     print("stderr:", res.stderr[-2000:])
     print("OK" if res.ok else "FAILS")
